@@ -298,6 +298,110 @@ def explore(lib, body):
     return paths
 
 
+def _callers(chk, lib):
+    # R11.5 callers
+    from ..kmodel import interp1d_obj, interp2d_obj
+    for lead, path, args, want in ((1, 'Interp1D::get_index_left_of', ['q'], [('x', 'q')]),
+                                   (2, 'Interp2D::get_index_left_of', ['qx', 'qy'], [('x', 'qx'), ('y', 'qy')])):
+        b = anchor(chk, lib, path, 'R11.5')
+        if b is None:
+            continue
+        m = KModel()
+        try:
+            io = interp1d_obj(Unit()) if lead == 1 else interp2d_obj(Unit())
+            Interp(lib, m).call_def(b['def'], [Ref(ValPlace(io))] + [Num(Rat.atom(a)) for a in args])
+            chk.ob('R11.5', "%s looks the unmodified query up in the matching axis (%s)" % (path, [(a, str(v)) for a, v in m.lookups]),
+                   [(a, str(v)) for a, v in m.lookups] == want, b['span'], 'caller-' + path)
+        except Exception as ex:
+            chk.ob('R11.5', "%s: %s" % (path, ex), False, getattr(ex, 'where', ''), 'caller-' + path)
+
+
+class GridModel(Model):
+    """a strictly rising axis of concretely known length (A[i] = 2 i), a query at a concrete position (on a knot: even, in a gap: odd)
+    and one arbitrary value for every float-to-index cast (the guess): every loop bound is concrete, the lookup is evaluated as written"""
+    def __init__(self, n, guess):
+        super().__init__()
+        self.n, self.guess = n, guess
+        self.allow_opaque = False
+        self.casts = 0
+
+    def call(self, name, cal, args, e, frame):
+        last = name.split('::')[-1]
+        a0 = deref_all(args[0]) if args else None
+        nd = cal.get('crate') == 'ndarray' or 'ndarray::' in (cal.get('resolved') or '')
+        if nd and isinstance(a0, Obj) and a0.kind == 'vec':
+            if last in ('len', 'dim', 'len_of'):
+                return Num(self.n)
+            if last == 'index':
+                i = deref_all(args[1])
+                if isinstance(i, Num) and i.const() is not None and i.const().denominator == 1:
+                    k = int(i.const())
+                    if not (0 <= k < self.n):
+                        raise Diverge("index %d out of bounds of an axis of length %d" % (k, self.n), e)
+                    return Ref(ValPlace(Num(2 * k)))
+                raise Unsupported("axis indexed with %r" % (i,), e)
+            if last in ('first', 'last'):
+                return SOME(Ref(ValPlace(Num(0 if last == 'first' else 2 * (self.n - 1)))))
+        ga = cal.get('gargs', [])
+        if name == 'num_traits::cast' or name in ('num_traits::ToPrimitive::to_usize', 'num_traits::cast::ToPrimitive::to_usize'):
+            v = deref_all(args[0])
+            to_usize = (name != 'num_traits::cast') or (len(ga) == 2 and ga[1] == 'usize' and ga[0] != 'usize')
+            if to_usize:
+                self.casts += 1
+                return SOME(Num(self.guess))           # the float arithmetic of the guess is not decided: any index
+            if isinstance(v, Num):
+                return SOME(v)
+        return NotImplemented
+
+    def plain_loop(self, body, frame, e):
+        for _ in range(4 * self.n + 16):
+            try:
+                self.interp.eval(body, Frame(frame))
+            except BreakEx as b:
+                return b.v if b.v is not None else Unit()
+            except ContinueEx:
+                continue
+        raise Diverge("the search does not end within 4 len + 16 iterations on an axis of length %d" % self.n, e)
+
+
+def bounded_grid(chk, lib, body, why):
+    """fallback when the comparison skeleton cannot be extracted (recursion, state in unmodelled structures ...): the lookup is
+    evaluated as written for every axis length 2..6, every query position (on each knot, in each gap, below, above) and every value of the
+    guess; the index returned must be the clamp / the bracketing interval.  Exhaustive up to that size only, and reported as such."""
+    maxn = 7 if chk.tier == 'thorough' else 6
+    chk.rule('R11.7', "bounded fallback (only when the comparison skeleton of R11.1-R11.6 cannot be extracted): for every axis length 2..%d, every query position "
+                      "and every value of the guess, get_lower_index evaluated as written returns 0 for q <= A[0], len-2 for q >= A[len-1] and otherwise the i with A[i] <= q < A[i+1], "
+                      "without panicking" % maxn)
+    chk.note('c11_route', 'bounded grid up to length %d, because: %s' % (maxn, why))
+    runs = bad = 0
+    first_bad = None
+    for n in range(2, maxn + 1):
+        for v in range(-1, 2 * (n - 1) + 2):
+            want = 0 if v <= 0 else (n - 2 if v >= 2 * (n - 1) else v // 2)
+            for g in range(0, n):
+                m = GridModel(n, g)
+                it = Interp(lib, m)
+                runs += 1
+                try:
+                    out = deref_all(it.call_def(body['def'], [Ref(ValPlace(Obj('vec'))), Num(v)]))
+                    got = int(out.const()) if isinstance(out, Num) and out.const() is not None else repr(out)
+                except Diverge as ex:
+                    got = 'panic: %s' % ex
+                except Unsupported as ex:
+                    chk.ob('R11.7', "get_lower_index evaluates on the grid (len %d, position %d, guess %d): %s" % (n, v, g, ex), False, ex.where or body['span'],
+                           'grid-unrecognised')
+                    return
+                if got != want:
+                    bad += 1
+                    if first_bad is None:
+                        first_bad = "len %d, query at position %s, guess %d: returned %s, expected %d" % (
+                            n, ('A[%d]' % (v // 2)) if v % 2 == 0 and 0 <= v <= 2 * (n - 1) else ('between A[%d] and A[%d]' % (v // 2, v // 2 + 1)), g, got, want)
+    chk.ob('R11.7', "all %d (length, query position, guess) combinations return the bracketing interval (first deviation: %s)" % (runs, first_bad),
+           bad == 0, body['span'], 'grid')
+    chk.floor('R11.7', 'grid runs', runs, 200)
+    chk.level = 'exploration'
+
+
 def run(chk):
     lib = load(chk)
     analyse(chk, lib)
@@ -327,6 +431,14 @@ def analyse(chk, lib, set_text=True):
         return
     paths = explore(lib, body)
     chk.note('paths', len(paths))
+    unsup = [out for m_, outcome, out in paths if outcome == 'unsupported']
+    if unsup:
+        bounded_grid(chk, lib, body, "the lookup is written in a form the path enumeration does not cover (%s)" % unsup[0])
+        _callers(chk, lib)
+        if set_text:
+            chk.explanation = ("get_lower_index is written in a form from which the comparison skeleton cannot be extracted; it was instead evaluated as written on "
+                               "every (axis length <= 6/7, query position, guess value) combination: bounded, not a proof for all lengths.")
+        return
     chk.floor('R11.4', 'paths through the lookup', len(paths), 5)
     kinds = []
     loop_reports = []
@@ -410,21 +522,7 @@ def analyse(chk, lib, set_text=True):
             chk.ob('R11.6', "the only axis read of the loop body is at the probed index (reads: %s)" % st['reads'], set(st['reads']) == {probe}, rep['where'],
                    'loop-reads-%s' % probe)
     chk.note('loop_entry_states', sorted(seen_states))
-    # R11.5 callers
-    from ..kmodel import interp1d_obj, interp2d_obj
-    for lead, path, args, want in ((1, 'Interp1D::get_index_left_of', ['q'], [('x', 'q')]),
-                                   (2, 'Interp2D::get_index_left_of', ['qx', 'qy'], [('x', 'qx'), ('y', 'qy')])):
-        b = anchor(chk, lib, path, 'R11.5')
-        if b is None:
-            continue
-        m = KModel()
-        try:
-            io = interp1d_obj(Unit()) if lead == 1 else interp2d_obj(Unit())
-            Interp(lib, m).call_def(b['def'], [Ref(ValPlace(io))] + [Num(Rat.atom(a)) for a in args])
-            chk.ob('R11.5', "%s looks the unmodified query up in the matching axis (%s)" % (path, [(a, str(v)) for a, v in m.lookups]),
-                   [(a, str(v)) for a, v in m.lookups] == want, b['span'], 'caller-' + path)
-        except Exception as ex:
-            chk.ob('R11.5', "%s: %s" % (path, ex), False, getattr(ex, 'where', ''), 'caller-' + path)
+    _callers(chk, lib)
     for m, outcome, out in paths[:6]:
         chk.sample({"path": [('%s' % l, d) for l, d in m.trace], "returns": str(out.r) if isinstance(out, Num) else str(out)})
     if set_text:
